@@ -1012,7 +1012,17 @@ impl Property for C19 {
         "ClientSim histories of attempt outcomes (refused, rejected by CONNACK, established briefly, established longer than the stability period, and pauses of 60 ms of real time between attempts) under base / maximum periods from {0, 1 ns, 999 us, 1 ms, 500 ms, 1 s, 7 s, 120 s, 10^6 s, Duration::MAX, random ms} incl. base > max, stability period {0, 40 ms, 1 h} (connection lifetimes 0 / 2 ms / 120 ms of real time, so every comparison has a wide margin) and jitter {none, uniform}; oracle: closed form wait_k = min(b*2^k, m) on the normalised (b, m) without jitter, wait_k in [0, min(b*2^k, m)] with uniform jitter, never above m, k restarts only after a connection that outlived the stability period, and computing the wait never panics; non-trivial = >= 4 consecutive waits, or a stability reset, or a degenerate configuration (0, sub-millisecond, Duration::MAX, base > max); distinct = hash of the case".to_string()
     }
 
+    /// second witness: the waits the real drivers make (see real::reconnect_gap_witness)
+    fn extra(&self, tier: Tier, _seed: u64) -> Vec<(String, CaseReport)> {
+        let mut out = Vec::new();
+        let configs: &[(bool, u64, u64)] = if tier == Tier::Quick { &[(true, 40, 5), (false, 40, 5)] } else { &[(true, 40, 5), (false, 40, 5), (true, 120, 30), (false, 120, 30), (true, 25, 2), (false, 25, 2)] };
+        for (tk, base, every) in configs {
+            out.push((format!("real-waits-{}-{}-{}", if *tk { "tokio" } else { "threaded" }, base, every), crate::real::reconnect_gap_witness(*tk, *base, *every)));
+        }
+        out
+    }
+
     fn assumptions(&self) -> Vec<String> {
-        vec!["connection lifetime vs. stability period is decided by real sleeps of 2 ms / 120 ms against periods of 0 / 40 ms / 1 h".into(), "the distribution of jittered waits is not asserted, only their bounds".into()]
+        vec!["connection lifetime vs. stability period is decided by real sleeps of 2 ms / 120 ms against periods of 0 / 40 ms / 1 h".into(), "the distribution of jittered waits is not asserted, only their bounds".into(), "the real-driver witness (waits really made by the tokio and threaded loops while operations keep arriving) judges wall-clock gaps with a 3x + 250 ms upper and a 0.8x lower tolerance and only if a 1 ms ticker in the harness never overslept by more than 120 ms; otherwise it is inconclusive".into()]
     }
 }
